@@ -8,6 +8,8 @@ import MosnVerif.Model.EnvelopeRef
 import MosnVerif.Model.HttpUri
 import MosnVerif.Model.Relay
 import MosnVerif.Model.Http1Msg
+import MosnVerif.Model.Reencode
+import MosnVerif.Model.ReencodeSpec
 /-!
 Driver of C01 (forwarding fidelity).  Case lines:
 
@@ -308,8 +310,39 @@ def http2Case (toks impl : List String) : String :=
   | _, ["lost"] => "D V lost"
   | _, _ => "E E bad-http2-case"
 
+/-! ### the same frame encoded again
+
+  `reenc <proto> <q|r> <id:k,id:k,…> <inputHex> => <ok|err|panic> <enc1,enc2,…>`
+
+one `id:k` per try: the request id set before Encode, and the number of buffers other traffic takes from the pool after
+the write.  The model is the reference-count / pool model with the return policy regenerated for this codec; its
+`patch` (what the codec's Encode makes of the unmodified frame under an id — the subject of the other kinds) is
+instantiated with the first encoding the implementation produced for that id. -/
+def reencCase (proto kind roundsS inS : String) (impl : List String) : String :=
+  let parseRound (t : String) : Option (Nat × Nat) :=
+    match t.splitOn ":" with
+    | [a, b] => do some ((← a.toNat?), (← b.toNat?))
+    | _ => none
+  match (roundsS.splitOn ",").mapM parseRound, unhex inS, impl with
+  | some rs, some raw, [st, encsS] =>
+    match (if encsS == "-" then some [] else (encsS.splitOn ",").mapM unhex) with
+    | some encs =>
+      let ids := rs.map (·.1)
+      let table := ids.zip encs
+      let patch : Nat → Bytes → Bytes := fun id _ => ((table.find? (·.1 == id)).map (·.2)).getD []
+      let rounds : List Reencode.Round := rs.map (fun r =>
+        { id := r.1, choice := some 0, traffic := List.replicate r.2 (.get (some 0) (List.replicate raw.length 0xEE)) })
+      let model := Reencode.run (Reencode.fastByName proto (kind == "q")) MosnVerif.Gen.C01Retain.writeRecycles patch raw [] rounds
+      let agree := st == "ok" && model == encs
+      let spec := st == "ok" && Reencode.specReenc (proto != "tars") raw ids encs
+      let show_ := if agree then s!"n={model.length}" else joinWith "," (model.map hex)
+      s!"{if agree then "A" else "D"} {if spec then "S" else "V"} {show_}"
+    | none => "E E bad-impl"
+  | _, _, _ => "E E bad-case"
+
 def run (caseToks impl : List String) : String :=
   match caseToks with
+  | ["reenc", proto, kind, rounds, inp] => reencCase proto kind rounds inp impl
   | ["bolt", id, ops, inp] => boltCase false id ops inp impl
   | ["boltv2", id, ops, inp] => boltCase true id ops inp impl
   | ["boltlocal", codec, what, id, st] => boltLocalCase codec what id st impl
